@@ -18,6 +18,7 @@ def handleSexp (line : String) : String :=
   | some (.atom "jstep" :: args) => Driver.cmdJstep args
   | some (.atom "jstr" :: args) => Driver.cmdJstr args
   | some (.atom "jparse" :: args) => Driver.cmdJparse args
+  | some (.atom "jproject" :: args) => Driver.cmdJproject args
   | some (.atom "nodeops" :: args) => Driver.cmdNodeOps args
   | some (.atom "recognize" :: args) => Driver.cmdRecognize args
   | some (.atom "process" :: args) => Driver.cmdProcess args
